@@ -483,7 +483,8 @@ func runServer(cfg config) {
 		},
 	})
 	if err != nil {
-		run.Fatal("%s: server: %v", cfg.name(), err)
+		rigFailed(cfg, err)
+		return
 	}
 	defer ts.Close()
 	// readers keep the default maximum (1472): their own outbound packets (receiver reports)
@@ -539,7 +540,8 @@ func runMcast(cfg config) bool {
 		Mutate: fastTimersServer,
 	})
 	if err != nil {
-		run.Fatal("%s: server: %v", cfg.name(), err)
+		rigFailed(cfg, err)
+		return true
 	}
 	defer ts.Close()
 	var gmu sync.Mutex
@@ -629,7 +631,8 @@ func runClient(cfg config) {
 	desc := oneMediaDesc(back)
 	ts, err := rig.StartServer(rig.ServerOpts{UDP: true, TLS: cfg.Secure, HandlerSet: "full", NoLog: true, Desc: desc, NoStream: !back, Mutate: fastTimersServer})
 	if err != nil {
-		run.Fatal("%s: server: %v", cfg.name(), err)
+		rigFailed(cfg, err)
+		return
 	}
 	defer ts.Close()
 	mutate := func(c *gortsplib.Client) {
@@ -685,6 +688,12 @@ func runClient(cfg config) {
 		rtcp: func(p rtcp.Packet) error { return c.WritePacketRTCP(m, p) }}, 0)
 	time.Sleep(200 * time.Millisecond)
 	sc.finish("client")
+}
+
+// rigFailed: a server that cannot be started is no verdict about the sweep (if Start refuses a
+// valid configuration the start-time validation reports it).
+func rigFailed(cfg config, err error) {
+	run.Inconclusive("rig " + cfg.Entry + " could not start: " + vlib.Trunc(err.Error(), 60))
 }
 
 // requireProfile makes sure the session negotiated the profile the oracle's overhead assumes.
